@@ -419,12 +419,16 @@ def run(prop: str, tier: str, only=None) -> Result:
     items = [("plain", s) for s in gen.plain_specs(n_plain)]
     items += [("eqpair", s) for s in gen.eqpair_specs(n_eq)]
     rnd = _random_specs(n_rand, max_rand)
-    total = parallel(_chunk, items + rnd, prop, prop=prop)
+    n_hist = 3 if quick else 4
+    hst = [("history", s) for s in gen.history_specs(gen.plain_specs(n_hist))]
+    big = [("big", s) for s in gen.big_specs(seed() + 10, 9 if quick else 60, lo=18, hi=36)]
+    total = parallel(_chunk, items + rnd + hst + big, prop, prop=prop)
     total.exhaustive = False
     b = (
         f"all ordered forests with <= {n_plain} nodes x labelings over {{a,b,c}} (siblings differ, clones under different parents)"
         + f"; equal-data pairs under distinct ids (siblings incl.) in all forests with <= {n_eq} nodes; "
         f"{n_rand} seeded random trees with 5..{max_rand} nodes (40% with equal-comparing data 'x'/'y' under distinct ids; VERIF_SEED={seed()}); "
+        f"{len(big)} seeded larger trees with 18..36 nodes (long sibling runs / chains / mixed); {len(hst)} " + "histories: every tree of <= {n} nodes with all accessors evaluated once, then one of remove / remove(keep_children) / move_to / add / remove_children / sort_children / deep copy (native/hist.py), the checks run on the resulting tree".format(n=n_hist) + "; "
         "every node, every ordered pair of nodes, nodes of a second tree for the cross-tree clauses"
     )
     total.bounds[
